@@ -28,7 +28,7 @@ import (
 )
 
 type kase struct {
-	Kind    string   `json:"kind"` // alpn | raw | drop
+	Kind    string   `json:"kind"` // alpn | raw | drop | srvfault
 	Protos  []string `json:"protos,omitempty"`
 	Desc    string   `json:"desc"`
 	Raw     []byte   `json:"raw,omitempty"`
@@ -107,7 +107,11 @@ func (w *world) honestFetchRaw() []byte {
 	if err != nil {
 		panic(err)
 	}
+	// built at a whole second: the encoded size of the validity timestamps
+	// (and with it the list of truncation cases) is then the same in every run
+	vclock.Freeze(time.Now().Truncate(time.Second))
 	req, err := c.CreateFetchNodeCredentialsRequest(harness.Ctx)
+	vclock.Reset()
 	if err != nil {
 		panic(err)
 	}
@@ -159,8 +163,27 @@ func (w *world) cases(c *engine.Ctx, emit func(kase)) {
 		if !c.Thorough() {
 			step = 3
 		}
-		for n := 0; n < len(raw); n += step {
-			emit(kase{Kind: "alpn", Protos: chunks(prefixes[name], raw[:n]), Desc: fmt.Sprintf("%s request truncated to %d of %d bytes", name, n, len(raw))})
+		// the request carries timestamps whose encoded size depends on the
+		// instant it was built at: the number of cases must not (every worker
+		// process enumerates the same numbered list), so the lengths run to a
+		// fixed limit and are clipped
+		const limit = 420
+		if len(raw) > limit {
+			panic("c14: honest request longer than the truncation limit")
+		}
+		for n := 0; n < limit; n += step {
+			m := n
+			if m > len(raw) {
+				m = len(raw)
+			}
+			if m < n && name == "auth" {
+				break // the authentication request has a fixed size
+			}
+			d := fmt.Sprintf("%s request truncated to %d bytes", name, n)
+			if m < n {
+				d += " (clipped: the whole request)"
+			}
+			emit(kase{Kind: "alpn", Protos: chunks(prefixes[name], raw[:m]), Desc: d})
 		}
 		// padded with an unknown 20 KiB field: > 100 chunks
 		pad := append(append([]byte{}, raw...), protoBytesField(1999, harness.Bytes("pad", 20*1024))...)
@@ -221,6 +244,14 @@ func (w *world) cases(c *engine.Ctx, emit func(kase)) {
 		b := raws[name]
 		emit(kase{Kind: "raw", Raw: b, Desc: name})
 	}
+	// the server's own side of the connection fails at its k-th write / read
+	for _, flow := range []string{"fetch", "auth"} {
+		for _, after := range []string{"write", "read"} {
+			for k := 1; k <= 10; k++ {
+				emit(kase{Kind: "srvfault", Flow: flow, After: after, K: k, Desc: fmt.Sprintf("%s handshake: the server's %s #%d on the connection fails with a reset", flow, after, k)})
+			}
+		}
+	}
 	// drops at every step of honest handshakes
 	for _, flow := range []string{"fetch", "auth"} {
 		for _, after := range []string{"write", "read"} {
@@ -254,6 +285,54 @@ func protoBytesField(num int, b []byte) []byte {
 		out = append(out, byte(v))
 	}
 	return append(out, b...)
+}
+
+// faultingConn is placed under the *server's* side of a connection: its k-th
+// Write (or Read) fails with a connection reset, as when the peer aborts at
+// exactly that point of the handshake.
+type faultingConn struct {
+	net.Conn
+	after string
+	k     int64
+	n     int64
+}
+
+type resetError struct{}
+
+func (resetError) Error() string   { return "write: connection reset by peer" }
+func (resetError) Timeout() bool   { return false }
+func (resetError) Temporary() bool { return false }
+
+func (f *faultingConn) Write(p []byte) (int, error) {
+	if f.after == "write" && atomic.AddInt64(&f.n, 1) == f.k {
+		f.Conn.Close()
+		return 0, &net.OpError{Op: "write", Net: "tcp", Err: resetError{}}
+	}
+	return f.Conn.Write(p)
+}
+
+func (f *faultingConn) Read(p []byte) (int, error) {
+	if f.after == "read" && atomic.AddInt64(&f.n, 1) == f.k {
+		f.Conn.Close()
+		return 0, &net.OpError{Op: "read", Net: "tcp", Err: resetError{}}
+	}
+	return f.Conn.Read(p)
+}
+
+// faultFirst wraps only the first accepted connection.
+type faultFirst struct {
+	net.Listener
+	after string
+	k     int
+	done  int32
+}
+
+func (l *faultFirst) Accept() (net.Conn, error) {
+	c, err := l.Listener.Accept()
+	if err == nil && atomic.CompareAndSwapInt32(&l.done, 0, 1) {
+		return &faultingConn{Conn: c, after: l.after, k: int64(l.k)}, nil
+	}
+	return c, err
 }
 
 // droppingConn closes the connection after k writes or reads.
@@ -315,6 +394,29 @@ func (w *world) badClient(k kase, addr string) {
 		}
 		var b [64]byte
 		raw.Read(b[:])
+	case "srvfault":
+		// an honest client; the fault is on the server's side of this connection
+		var protos []string
+		var chain [][]byte
+		key := w.honest.K
+		if k.Flow == "auth" {
+			protos = chunks(prefixes["auth"], w.honestAuthRaw())
+			b := w.honest.Creds.CertificateBundles[0]
+			chain = [][]byte{b.CertificateDer, b.CaCertificateDer}
+		} else {
+			protos = chunks(prefixes["fetch"], w.honestFetchRaw())
+			key = harness.NewCertKey("KP", w.seed)
+			chain = [][]byte{harness.SelfSignedCert(key, nodeenrollment.CommonDnsName)}
+		}
+		c := tls.Client(raw, &tls.Config{MinVersion: tls.VersionTLS13, InsecureSkipVerify: true, NextProtos: protos,
+			GetClientCertificate: func(*tls.CertificateRequestInfo) (*tls.Certificate, error) {
+				return &tls.Certificate{Certificate: chain, PrivateKey: key.Priv}, nil
+			}})
+		if c.Handshake() == nil {
+			var b [1]byte
+			c.SetReadDeadline(time.Now().Add(2 * time.Second))
+			c.Read(b[:])
+		}
 	case "drop":
 		dc := &droppingConn{Conn: raw, after: k.After, k: int64(k.K)}
 		var protos []string
@@ -341,6 +443,9 @@ func (w *world) one(k kase, r *engine.Report) (string, string) {
 	cfg := harness.ServerConfig{Storage: w.st.Clone(), Options: w.opts}
 	if k.BaseTLS {
 		cfg.BaseTLS = w.baseTLS
+	}
+	if k.Kind == "srvfault" {
+		cfg.BaseWrap = func(l net.Listener) net.Listener { return &faultFirst{Listener: l, after: k.After, k: k.K} }
 	}
 	badAccepts := 0
 	var followErr error
@@ -392,14 +497,14 @@ func classOf(k kase) string {
 			return strings.Fields(k.Desc)[0]
 		}
 		return k.Desc
-	case "drop":
+	case "drop", "srvfault":
 		return k.Flow + "-" + k.After
 	}
 	return "bytes"
 }
 
 func run(c *engine.Ctx, r *engine.Report) {
-	r.Need("survived:alpn", "survived:raw", "survived:drop", "bad-connection-reported-as-temporary-error-or-unauthenticated", "closed-listener-non-temporary")
+	r.Need("survived:alpn", "survived:raw", "survived:drop", "survived:srvfault", "bad-connection-reported-as-temporary-error-or-unauthenticated", "closed-listener-non-temporary")
 	w := newWorld(c.Seed)
 	i := 0
 	w.cases(c, func(k kase) {
@@ -420,7 +525,9 @@ func run(c *engine.Ctx, r *engine.Report) {
 			r.Violate(sig, msg, k)
 			return
 		}
-		r.Nontrivial(1)
+		if !strings.Contains(k.Desc, "(clipped") {
+			r.Nontrivial(1) // clipped truncations repeat the whole request
+		}
 		if i%211 == 7 {
 			r.Sample(map[string]any{"kind": k.Kind, "desc": k.Desc, "base_tls": k.BaseTLS})
 		}
@@ -463,7 +570,7 @@ func init() {
 	engine.Register(&engine.CheckDef{
 		ID:    "C14",
 		Level: "fault_enumeration",
-		Rule: "against the real InterceptingListener on a loopback socket, with and without an application base TLS configuration: ClientHello ALPN lists of 1-3 entries over the three library prefixes x suffixes {empty, shorter than the chunk header, header only, non-base64, random base64, three-digit header, hyphens, long}, honest fetch and authentication requests truncated at every length (quick: every third), padded to 20 KiB (>100 chunks), duplicated, with missing / reordered chunks, mixed prefixes; well-signed fetch requests whose nonce is an unknown / consumed / field-less activation token or has an odd size, alone and with garbage, short, foreign-sealed or malformed re-wrapped registration info; raw non-TLS byte strings (empty, HTTP, TLS record headers with truncated / oversized bodies, 1..64 seeded bytes); honest fetch and authentication handshakes dropped after the k-th client write / read for k = 0..12; every case is followed by an honest Dial on the same listener; " +
+		Rule: "against the real InterceptingListener on a loopback socket, with and without an application base TLS configuration: ClientHello ALPN lists of 1-3 entries over the three library prefixes x suffixes {empty, shorter than the chunk header, header only, non-base64, random base64, three-digit header, hyphens, long}, honest fetch and authentication requests truncated at every length (quick: every third), padded to 20 KiB (>100 chunks), duplicated, with missing / reordered chunks, mixed prefixes; well-signed fetch requests whose nonce is an unknown / consumed / field-less activation token or has an odd size, alone and with garbage, short, foreign-sealed or malformed re-wrapped registration info; raw non-TLS byte strings (empty, HTTP, TLS record headers with truncated / oversized bodies, 1..64 seeded bytes); honest fetch and authentication handshakes dropped after the k-th client write / read for k = 0..12, and with the server's own k-th write / read on the connection failing with a reset for k = 1..10 (including the close-notify after a handled fetch); every case is followed by an honest Dial on the same listener; " +
 			"distinct_nontrivial counts cases (distinct by construction) after which the follow-up dial was attempted and judged",
 		Assumptions: []string{"peers that stall without closing are outside the quantifier (Accept handshakes synchronously by design)", "the application-supplied registration wrapper is wrapped in a length guard: robustness of go-kms-wrapping's aead wrapper against short ciphertexts is not the library's"},
 		Shards:      func(c *engine.Ctx) int { return 16 },
